@@ -45,8 +45,13 @@ def _table():
         add("prior_iwp", fact, "-", "valid")
         for c in ("array_instead_of_list", "ragged_coefficient", "mixed_leaf_rank", "empty"):
             add("prior_iwp", fact, "tcoeffs", c)
-        for c in ("int_flag", "string_flag", "list_wrong_length", "float_entries", "wrong_entry_shape", "int_entries"):
+        for c in ("int_flag", "string_flag", "list_wrong_length", "float_entries", "wrong_entry_shape", "int_entries",
+                  # shapes that would *broadcast* against the coefficient (the silent-broadcast hazard the property names)
+                  "entry_shape_1", "entry_shape_1_d", "entry_shape_d_1"):
             add("prior_iwp", fact, "is_exact", c)
+        if fact != "isotropic":
+            for c in ("matrix_state_row_flags", "matrix_state_column_flags"):
+                add("prior_iwp", fact, "is_exact", c)
         scales = ("shape_1", "shape_d", "list_of_scalar") if fact == "isotropic" else (
             "scalar", "shape_1", "shape_d_1", "shape_1_d", "shape_d_plus_1", "list_wrapped", "dict_wrapped")
         for c in scales:
@@ -183,7 +188,15 @@ def _execute(row):
                 "float_entries": [jnp.asarray(1.0) if fact == "isotropic" else jnp.ones((D,)) for _ in range(N)],
                 "int_entries": [jnp.asarray(1) if fact == "isotropic" else jnp.ones((D,), dtype=int) for _ in range(N)],
                 "wrong_entry_shape": [jnp.ones((D + 1,), dtype=bool) for _ in range(N)],
+                "entry_shape_1": [jnp.ones((1,), dtype=bool) for _ in range(N)],
+                "entry_shape_1_d": [jnp.ones((1, D), dtype=bool) for _ in range(N)],
+                "entry_shape_d_1": [jnp.ones((D, 1), dtype=bool) for _ in range(N)],
+                "matrix_state_row_flags": [jnp.ones((3,), dtype=bool) for _ in range(N)],
+                "matrix_state_column_flags": [jnp.ones((2, 1), dtype=bool) for _ in range(N)],
             }[c]
+            if c.startswith("matrix_state"):
+                tc = [jnp.ones((2, 3)) * (k + 1.0) for k in range(N)]
+                kw.pop("output_scale")
         if field == "output_scale":
             kw["output_scale"] = {
                 "scalar": jnp.asarray(2.0), "shape_1": jnp.asarray([2.0]), "shape_d": jnp.asarray([2.0, 3.0]),
